@@ -22,7 +22,11 @@ FIELD_POOL = [b'x', b'y', b'w', b'spd', b'a', b'n', b'hp', b'on', b'len']
 
 NUMBERS = [b'0', b'1', b'2', b'10', b'255', b'32767', b'0.5', b'1.25', b'3.', b'.5', b'.75', b'1e3', b'2E2', b'1e-2',
            b'1.5e2', b'.5e1', b'0x10', b'0xff', b'0xFF', b'0x1f.8', b'0xa.c', b'0b101', b'0b1.1', b'0x7fff.ffff',
-           b'007', b'12.50']
+           b'007', b'12.50',
+           # spellings a value-preserving re-spelling could get wrong: zeros at the end of an exponent, of a fraction,
+           # of an integer, of a hex / binary fraction
+           b'1.5e10', b'2.5e0', b'1.25e-10', b'1.50e1', b'1e10', b'100', b'1000', b'0.0', b'0.10', b'10.0', b'0x10.0',
+           b'0x1.80', b'0b10.10', b'00.500', b'5e0', b'1.e1']
 STRINGS = [b'"a"', b"'b'", b'""', b"''", b'"hello world"', b"'its'", b'"q\\"q"', b"'q\\'q'", b'"a\\nb"',
            b'"\\65\\066"', b'"\\0"', b'"tab\\there"', b'"\\\\"', b'"--not a comment"', b'"[[x]]"', b'[[long]]',
            b'[[a]b]]', b'[=[x]]y]=]', b'[==[]==]', b'"\\*\\#\\-\\|\\+\\^"', b'"\xe2\x99\xa5"', b'"\x80\xff"',
